@@ -516,14 +516,16 @@ func buildRings(r *core.Run) []*ring {
 		rings = append(rings, &ring{name: "R1b-engine-w1", patterns: ext1, flags: flagSubsetsOf("imsu"),
 			subjects: allSubjects(2, all), ops: opsEngine, kinds: kindsPlain, patches: []int{0}, wantB: true})
 		// R2: engine semantics, weight-2 patterns, global iteration
-		rings = append(rings, &ring{name: "R2-engine-w2", patterns: ext2, flags: []string{"g", "gi", "gu", "gimsu"},
+		rings = append(rings, &ring{name: "R2-engine-w2", patterns: ext2, flags: []string{"g", "gi", "gu"},
 			subjects: allSubjects(2, engSyms), ops: opsIter, kinds: kindsPlain, patches: []int{0}, wantB: true})
 		// R3: weight-3 patterns over the core alphabet
 		rings = append(rings, &ring{name: "R3-engine-w3", patterns: core3, flags: []string{"g", "gu"},
 			subjects: allSubjects(2, coreSyms), ops: opsIter, kinds: kindsPlain, patches: []int{0}, wantB: true})
 		return rings
 	}
-	pathFlagsT := append(flagSubsetsOf("guy"), "ims", "gims", "imsy", "gimsy", "imsu", "gimsu", "imsuy", "gimsuy")
+	// i is left to the engine rings except for one full flag string: regexp2 needs ~50 ms to compile a negated escape
+	// (\D \W \S) under IgnoreCase, and the path rings recompile on every split / matchAll / species construction
+	pathFlagsT := append(flagSubsetsOf("guy"), "ms", "gms", "msy", "gmsy", "msu", "gmsu", "msuy", "gimsuy")
 	rings = append(rings, &ring{name: "T1a-paths-w1", patterns: ext1, flags: pathFlagsT,
 		subjects: allSubjects(2, pathSyms), ops: allOps, kinds: kindsAll, patches: []int{0, 1, 2}, wantB: true, starts: true})
 	rings = append(rings, &ring{name: "T1c-paths-deep-subjects", patterns: pathPatternsT, flags: flagSubsetsOf("guy"),
@@ -670,7 +672,7 @@ func parallelWatched(r *core.Run, envs []*env, n, chunk int64, fn func(worker in
 	for {
 		select {
 		case <-done:
-			return !cut.Load() && !aborted.Load(), false
+			return !cut.Load() && !aborted.Load() && !r.Capped(), false
 		case <-tick.C:
 			for _, e := range envs {
 				c := e.cur.Load()
